@@ -39,6 +39,23 @@ add('C01', 'proof', 'Lean 4 theorems about an executable model of _run_once + sc
     TB + 'Modelled rather than verified: app._run_once, run_once, run_once_ftp, validators of run/run_ftp. The error '
     'model, rng and decoder are parameters of the model (universally quantified).')
 
+add('C04', 'proof', 'Lean 4 theorems (loop invariant) about an executable model of _run + scripted-history correspondence',
+    'Exact stopping index (least index at which a limit is reached, never one more or fewer; non-termination stated), '
+    'counts/weights/array totals as folds of the performed runs, never-mis-summed and mismatch-at-first-inconsistent-run, '
+    'aggregate statistics incl. population variance, are Lean theorems for every outcome history and every pair of '
+    'limits; tied to qecsim.app.run/run_ftp by scripted histories through the real loop, comparing call counts and every '
+    'field (floats bit-exactly through the documented float expressions), value types and json.dumps.',
+    TB + 'Modelled rather than verified: app._run, _add_rate_statistics. Float rounding of the two rates and of pvariance '
+    'is recomputed in the harness (IEEE-754 / statistics.pvariance trusted).')
+add('C05', 'proof', 'Lean 4 theorems (canonical-form invariant) about an executable model of merge + record-multiset correspondence',
+    'Grouping by exactly the seven key fields, conservation of all scalar and array totals, rates from sums, '
+    'permutation / partition / nesting / idempotence / JSON and legacy-representation invariance and the symmetric '
+    'mismatch criterion are Lean theorems for every record multiset; tied to qecsim.app.merge by single-call equivalence '
+    '(output order included) on generated multisets with closure (merge outputs fed back), plus metamorphic checks on the '
+    'real merge and input immutability.',
+    TB + 'Modelled rather than verified: app.merge. wall_time is summed in exact rationals in the model; the harness uses '
+    'dyadic wall times so the float sums are exact.')
+
 NOT_YET = {}
 
 
